@@ -102,6 +102,9 @@ func (e *Engine) strLit(st *State, s string) Term {
 			Eq(T("(slen "+t.S+")", SInt), IntLit(int64(len(s)))),
 			Eq(T("("+idf+" "+t.S+")", SInt), IntLit(int64(id))),
 		}
+		if len(s) == 1 {
+			facts = append(facts, Eq(t, T(fmt.Sprintf("(bytestr %d)", s[0]), SStr)))
+		}
 		if len(s) <= 24 {
 			for i := 0; i < len(s); i++ {
 				facts = append(facts, Eq(T(fmt.Sprintf("(sbyte %s %d)", t.S, i), SInt), IntLit(int64(s[i]))))
@@ -331,7 +334,13 @@ func (e *Engine) execInstr(st *State, fr *frame, instr ssa.Instruction) {
 	case *ssa.UnOp:
 		st.env[ins] = e.unop(st, ins)
 	case *ssa.BinOp:
-		st.env[ins] = e.binop(st, ins.Op, e.val(st, ins.X), e.val(st, ins.Y), ins.X.Type(), ins.Type(), ins.Pos())
+		if isRangeIndexIncr(ins) {
+			// the hidden counter of a range loop over a slice/array/string:
+			// -1 <= rangeindex < len, so rangeindex + 1 never overflows
+			st.env[ins] = Add(e.term(st, ins.X), IntLit(1))
+		} else {
+			st.env[ins] = e.binop(st, ins.Op, e.val(st, ins.X), e.val(st, ins.Y), ins.X.Type(), ins.Type(), ins.Pos())
+		}
 	case *ssa.FieldAddr:
 		p := e.val(st, ins.X).(PtrV)
 		e.checkNil(st, p, ins.Pos())
@@ -465,6 +474,23 @@ func (e *Engine) unop(st *State, ins *ssa.UnOp) Value {
 	panic(unsupported("unop " + ins.Op.String()))
 }
 
+// isRangeIndexIncr recognises go/ssa's `rangeindex + 1` of a range loop.
+func isRangeIndexIncr(ins *ssa.BinOp) bool {
+	if ins.Op != token.ADD {
+		return false
+	}
+	c, ok := ins.Y.(*ssa.Const)
+	if !ok || c.Value == nil || c.Value.ExactString() != "1" {
+		return false
+	}
+	u, ok := ins.X.(*ssa.UnOp)
+	if !ok || u.Op != token.MUL {
+		return false
+	}
+	a, ok := u.X.(*ssa.Alloc)
+	return ok && a.Comment == "rangeindex"
+}
+
 func (e *Engine) wrap(t types.Type, x Term) Term {
 	if !isInteger(t) {
 		return x
@@ -587,16 +613,22 @@ func (e *Engine) tdiv(x, y Term) Term {
 	return T("("+name+" "+x.S+" "+y.S+")", SInt)
 }
 
+// sless: the byte-wise order of Go strings. Strings are a countable linear
+// order, so they embed into the reals: sless(a,b) is skey(a) < skey(b) with an
+// injective skey (see smtPrelude); the order axioms are then arithmetic.
 func (e *Engine) sless(a, b Term) Term {
-	x, y, z := T("x", SStr), T("y", SStr), T("z", SStr)
-	sl := func(p, q Term) Term { return T("(sless "+p.S+" "+q.S+")", SBool) }
-	e.ctx.Axiom("sless:order", []string{"sless"}, And(
-		Forall([]Term{x}, Not(sl(x, x))),
-		Forall([]Term{x, y, z}, Implies(And(sl(x, y), sl(y, z)), sl(x, z))),
-		Forall([]Term{x, y}, Or(sl(x, y), sl(y, x), Eq(x, y))),
-	))
 	e.slessUsed = true
-	return sl(a, b)
+	// declared on first use only: a Real-sorted symbol in the prelude changes
+	// the solver's strategy for every query, also those without strings
+	if _, ok := e.ctx.syms["sless"]; !ok {
+		e.ctx.add(&Sym{Name: "skey", Kind: symDecl, Text: "(declare-fun skey (Str) Real)"})
+		e.ctx.add(&Sym{Name: "sunkey", Kind: symDecl, Text: "(declare-fun sunkey (Real) Str)"})
+		e.ctx.add(&Sym{Name: "sless", Kind: symDef, Text: "(define-fun sless ((a Str) (b Str)) Bool (< (skey a) (skey b)))", Deps: []string{"skey"}})
+		av := T("a", SStr)
+		e.ctx.Axiom("sless:order", []string{"sless"}, ForallPat([]Term{av}, [][]Term{{T("(skey a)", SInt)}},
+			And(Eq(T("(sunkey (skey a))", SStr), av), T("(<= (skey strEmpty) (skey a))", SBool))))
+	}
+	return T("(sless "+a.S+" "+b.S+")", SBool)
 }
 
 // valuesEqual implements Go's == on symbolic values.
@@ -978,6 +1010,11 @@ func (e *Engine) bytesToStr(st *State, sl SliceV) Term {
 	f := e.ctx.Func("bytes2str", []*Sort{ArrSort(SInt, SInt), SInt, SInt}, SStr)
 	r := e.ctx.Define("b2s", T("("+f+" (select "+arr.S+" "+sl.Arr.S+") "+sl.Off.S+" "+sl.Len.S+")", SStr))
 	st.assume(Eq(slen(r), sl.Len))
+	{
+		a, o := T("a!b1", ArrSort(SInt, SInt)), T("o!b1", SInt)
+		one := T("("+f+" a!b1 o!b1 1)", SStr)
+		e.ctx.Axiom("bytes2str:one", []string{"bytes2str"}, ForallPat([]Term{a, o}, [][]Term{{one}}, Eq(one, T("(bytestr (select a!b1 (ix o!b1 0)))", SStr))))
+	}
 	e.strFacts(st, r)
 	return r
 }
